@@ -14,12 +14,12 @@ variable {cfg : JointConfig} {c0 : Nat} {h : List Sys}
 
 
 /-- the commit index is never below the common snapshot point -/
-theorem c0_le_committed (H : Hyp2 cfg c0 h) {n : Nat} {s : Sys} (hn : h[n]? = some s) {v : Nat}
+theorem c0_le_committed (H : Hyp2w cfg c0 h) {n : Nat} {s : Sys} (hn : h[n]? = some s) {v : Nat}
     {st : NState} (hv : s.node v = some st) : c0 ≤ st.raft.raftLog.committed :=
   Nat.le_trans (c0_le_snap H hn hv) (node_ok H hn hv).snap_le
 
 /-- a `call` / `deliver` step keeps the ghost entries up to the commit index -/
-theorem call_keeps_committed (H : Hyp2 cfg c0 h) {n : Nat} {a : Sys} (ha : h[n]? = some a)
+theorem call_keeps_committed (H : Hyp2w cfg c0 h) {n : Nat} {a : Sys} (ha : h[n]? = some a)
     {k : Nat} {st st' : NState} (hk : a.node k = some st)
     (hs : FCallStep h c0 a k st st') :
     EqUpTo (FL h c0 st') (FL h c0 st) st.raft.raftLog.committed := by
@@ -41,12 +41,12 @@ theorem covered_of_src {n cL τ τ' c' : Nat} {L g : LLog} (hcov : Covered h c0 
   · exact .inl (by omega)
   · exact .inr ⟨E0, h1, by omega, by omega, by omega, heq.trans (h5.mono hle)⟩
 
-theorem nctm_step (H : Hyp3 cfg c0 h) {n : Nat} (S : SAll h c0 n) {a b : Sys}
+theorem nctm_step (H : Hyp3a cfg c0 h) {n : Nat} (S : SAll h c0 n) {a b : Sys}
     (ha : h[n]? = some a) (hb : h[n + 1]? = some b) :
     ∀ v st', b.node v = some st' →
       Covered h c0 (n + 1) st'.raft.raftLog.committed st'.raft.term (FL h c0 st') := by
   intro v st' hvb
-  have H2 := H.toHyp2
+  have H2 := H.toHyp2w
   have Sa := S n a (Nat.le_refl _) ha
   obtain ⟨k, stk, stk', hka, hkb, hoth, hs⟩ := stp_of H2 ha hb
   by_cases hvk : v = k
@@ -199,7 +199,69 @@ theorem nctm_step (H : Hyp3 cfg c0 h) {n : Nat} (S : SAll h c0 n) {a b : Sys}
                     (fun j hj => ?_)
                   rw [FL_same hlog]
                   exact heq j (by omega)
-              | readIndexResp ht _ _ _ => exact absurd ht (H.norir a (mem_of_get ha) m hm)
+              | readIndexResp ht hterm hc' _ =>
+                -- a read index of a leader of the message's term: the sender's commit index covered it
+                have hq := (call_facts H2 ha hka (.inr ⟨m, rfl, hm, hto⟩) hnc hcall).2.2.2.1
+                have hlog : st'.raft.raftLog.abs = stk.raft.raftLog.abs := by
+                  rcases hq with (c | ⟨es, c⟩ | c) | ⟨j, c, _⟩
+                  · exact c
+                  · exact absurd c.leader hlead
+                  · have c' : m.msgType = .msgAppend := c
+                    rw [c'] at ht; cases ht
+                  · cases c
+                have oa := node_ok H2 ha hka
+                have hterm' : stk.raft.raftLog.abs.term m.index = .ok m.term := by
+                  rw [← hls.abs, ← (hls.inv oa.inv).term_abs]; exact hterm
+                obtain ⟨n0, s0, w, stw, hn0, hs0, hw, hwl, hwt, hwi⟩ := H.rirs n a ha m hm ht
+                have ow := node_ok H2 hs0 hw
+                have htnz : m.term ≠ 0 := by
+                  rw [← hwt]; exact (hall s0 (mem_of_get hs0)).tz w stw hw (.inr hwl)
+                have Ik := node_full H2 n a ha v stk hka
+                have hci : c0 < m.index := by omega
+                -- above `c0` a term answer is the term of a retained entry: a known snapshot term
+                -- sits at `c0`
+                have hsn : stk.raft.raftLog.abs.snapIdx < m.index := by
+                  apply Classical.byContradiction
+                  intro hns
+                  have hterm2 := hterm'
+                  unfold LLog.term at hterm2
+                  split at hterm2
+                  · injection hterm2 with h'; exact htnz h'.symm
+                  · have heq : m.index = stk.raft.raftLog.abs.snapIdx := by omega
+                    rw [if_pos heq] at hterm2
+                    cases hst : stk.raft.raftLog.abs.snapTerm with
+                    | none => rw [hst] at hterm2; cases hterm2
+                    | some t' =>
+                      have := snapTerm_c0 H2 n a ha v stk hka t' hst
+                      omega
+                obtain ⟨e1, he1, ht1⟩ := stk.raft.raftLog.abs.entry_of_term hterm' htnz hsn
+                have hLw : LeaderLog h c0 n m.term (FL h c0 stw) :=
+                  ⟨n0, s0, w, stw, hn0, hs0, hw, hwl, hwt, rfl⟩
+                have hreach : m.index ≤ (FL h c0 stw).lastIndex := by
+                  rw [fl_last H2 hs0 hw, ← ow.inv.lastIndex_abs]
+                  exact Nat.le_trans hwi ow.inv.committed_le_last
+                have hhas : Has (FL h c0 stw) m.index m.term := by
+                  obtain ⟨si, hsi, hprov⟩ := entry_prov H2
+                  rcases hprov n a ha (.log v) _ (at_log hka) m.index e1 he1 with c | c
+                  · have := init_entry_term H2 hsi c hs0 (l := w) (t := m.term) ⟨stw, hw, hwl, hwt⟩
+                    omega
+                  · obtain ⟨m', s', l', stl, c1, c2, c3, c4, c5, c6, _⟩ := c
+                    have Il := node_full H2 m' s' c2 l' stl c3
+                    have hL' : LeaderLog h c0 n m.term (FL h c0 stl) :=
+                      ⟨m', s', l', stl, c1, c2, c3, c4, c5.trans ht1, rfl⟩
+                    have := ll_eq H2 hL' hLw ((FL h c0 stl).entryAt_lt (Il.log.entry c6)).2 hreach
+                    exact ⟨e1, this.symm.trans (Il.log.entry c6), ht1⟩
+                have heq := eq_ll H2 ha hka hLw ⟨e1, Ik.log.entry he1, ht1⟩ hhas
+                have hτ : stw.raft.term ≤ st'.raft.term := by
+                  rw [hwt]
+                  rcases hrecv with c | ⟨c1, _⟩ | ⟨c1, _⟩
+                  · exact c
+                  · rw [c1] at ht; cases ht
+                  · rw [c1] at ht; cases ht
+                refine covered_of_src (((S n0 s0 hn0 hs0).nctm w stw hw).mono hn0 (Nat.le_refl _))
+                  (c' := st'.raft.raftLog.committed) (by omega) hτ (fun j hj => ?_)
+                rw [FL_same hlog]
+                exact heq j (by omega)
   · have hva : a.node v = some st' := by rw [← hoth v hvk]; exact hvb
     exact (Sa.nctm v st' hva).mono (Nat.le_succ _) (Nat.le_refl _)
 
@@ -216,12 +278,12 @@ theorem Covered.eq {m cm term : Nat} {g g' : LLog} (hc : Covered h c0 m cm term 
   · exact .inl c
   · exact .inr ⟨E, h1, h2, h3, h4, he.trans h5⟩
 
-theorem scm_step (H : Hyp3 cfg c0 h) {n : Nat} (S : SAll h c0 n) {a b : Sys}
+theorem scm_step (H : Hyp3a cfg c0 h) {n : Nat} (S : SAll h c0 n) {a b : Sys}
     (ha : h[n]? = some a) (hb : h[n + 1]? = some b) :
     ∀ v st', b.node v = some st' →
       st'.raft.raftLog.store.hardState.commit ≤ st'.raft.raftLog.committed := by
   intro v st' hvb
-  have H2 := H.toHyp2
+  have H2 := H.toHyp2w
   have Sa := S n a (Nat.le_refl _) ha
   obtain ⟨k, stk, stk', hka, hkb, hoth, hs⟩ := stp_of H2 ha hb
   by_cases hvk : v = k
@@ -250,13 +312,13 @@ theorem scm_step (H : Hyp3 cfg c0 h) {n : Nat} (S : SAll h c0 n) {a b : Sys}
   · have hva : a.node v = some st' := by rw [← hoth v hvk]; exact hvb
     exact Sa.scm v st' hva
 
-theorem ncts_step (H : Hyp3 cfg c0 h) {n : Nat} (S : SAll h c0 n) {a b : Sys}
+theorem ncts_step (H : Hyp3a cfg c0 h) {n : Nat} (S : SAll h c0 n) {a b : Sys}
     (ha : h[n]? = some a) (hb : h[n + 1]? = some b) :
     ∀ v st', b.node v = some st' →
       Covered h c0 (n + 1) st'.raft.raftLog.store.hardState.commit
         st'.raft.raftLog.store.hardState.term (FS h c0 st') := by
   intro v st' hvb
-  have H2 := H.toHyp2
+  have H2 := H.toHyp2w
   have Sa := S n a (Nat.le_refl _) ha
   obtain ⟨k, stk, stk', hka, hkb, hoth, hs⟩ := stp_of H2 ha hb
   by_cases hvk : v = k
